@@ -26,7 +26,7 @@ class C01(pure.Spec):
             "answer sent afterwards, both directions at once, close by the target, close by the local client, refusing "
             "target, target closing completely during an upload after having half-closed, a slow half-closed target receiving a 3 MB upload, the two half-close orders in which the late direction must be delivered while the connection stays open, and local clients that give up while their stream request is in flight beside connections in progress; the client reaches the server through a relay that adds 15 ms to the server-to-client direction), 1-5 concurrent connections, chunk sizes 0..200 kB (several windows); UDP remote and SOCKS5 UDP "
             "association (own or shared association, IPv4, IPv6 and domain-name headers, one client alternating between two targets), 1-4 concurrent clients, datagram sizes "
-            "0..8 kB; and slow UDP clients whose datagrams are 3 s and 23 s apart (around and beyond the 10 s after which both ends forget an idle UDP client: active clients must stay registered, forgotten ones must be registered again), run beside the other cases, as does a long stream (5000 chunks of 2 KiB sent one by one) towards a local client with a small receive buffer that reads nothing for 6 s, so that the stream's receive window closes and back-pressure reaches the target; and reply bursts (the target answers one datagram with 300-600 replies back to back, more than the tunnel's reply queue holds: some may be dropped, the next exchange must work as before). Observed: bytes received at both ends compared byte by byte with the peer's stream, how each side "
+            "0..8 kB; and slow UDP clients whose datagrams are 3 s and 23 s apart (around and beyond the 10 s after which both ends forget an idle UDP client: active clients must stay registered, forgotten ones must be registered again), run beside the other cases, as does a long stream (5000 chunks of 2 KiB sent one by one) towards a local client with a small receive buffer that reads nothing for 6 s, so that the stream's receive window closes and back-pressure reaches the target, and the same through the Unix-socket remote with 512 KiB chunks (small fixed socket buffers: the bridge's writes towards the local client are accepted in part only); and reply bursts (the target answers one datagram with 300-600 replies back to back, more than the tunnel's reply queue holds: some may be dropped, the next exchange must work as before). Observed: bytes received at both ends compared byte by byte with the peer's stream, how each side "
             "saw the end (clean EOF / reset / still open after 6 s), per UDP client the replies that are its own, foreign "
             "or duplicate replies, the source address of replies, RFC 1928 header well-formedness, datagrams the target "
             "got. Compared exactly with what a direct connection shows (Tunnel/Direct.v); a UDP case whose only deviation is a "
